@@ -441,4 +441,77 @@ theorem reserved_lower_generic (N U m r : ℕ) (A B δm δr R : ℚ) (hN : 1 ≤
     push_cast at hδr
     rw [hUq]; nlinarith
 
+
+/-- per-order worst-case premium `c·(U + N·σ) ≤ 2^48` as a rational inequality -/
+theorem premiumGuard_q (o : Order) (h : premiumGuard o = true) :
+    cRate o.fixedRate o.leaseDuration *
+      ((toSatoshis o.unitsUnfulfilled : ℚ) + (maxMatches o : ℚ) * (o.selfChanBalance : ℚ)) ≤ 2 ^ 48 := by
+  unfold premiumGuard at h
+  have h' := of_decide_eq_true h
+  have hq : (((toSatoshis o.unitsUnfulfilled + maxMatches o * o.selfChanBalance) * o.fixedRate * o.leaseDuration : ℕ) : ℚ)
+      ≤ ((2 ^ 48 * feeRateTotalParts : ℕ) : ℚ) := by exact_mod_cast h'
+  have hK : (0 : ℚ) < (feeRateTotalParts : ℚ) := by exact_mod_cast feeRateTotalParts_pos
+  unfold cRate
+  rw [div_mul_eq_mul_div, div_le_iff₀ hK]
+  push_cast at hq ⊢
+  nlinarith
+
+theorem maxMatches_eq (o : Order) (hm : 0 < o.minUnitsMatch) :
+    toSatoshis o.unitsUnfulfilled / toSatoshis o.minUnitsMatch = maxMatches o := by
+  unfold toSatoshis maxMatches
+  exact Nat.mul_div_mul_right _ _ baseSupplyUnit_pos
+
+/-- the property's guard for asks: the premium at the ask's own rate does not exceed the leased amount, for any
+    amount — `rate · duration ≤ FeeRateTotalParts`. -/
+def askGuard (o : Order) : Prop := o.fixedRate * o.leaseDuration ≤ feeRateTotalParts
+
+instance (o : Order) : Decidable (askGuard o) := by unfold askGuard; infer_instance
+
+theorem askGuard_q (o : Order) (h : askGuard o) : cRate o.fixedRate o.leaseDuration ≤ 1 := by
+  unfold askGuard at h
+  have hq : ((o.fixedRate * o.leaseDuration : ℕ) : ℚ) ≤ (feeRateTotalParts : ℚ) := by exact_mod_cast h
+  have hK : (0 : ℚ) < (feeRateTotalParts : ℚ) := by exact_mod_cast feeRateTotalParts_pos
+  unfold cRate
+  rw [div_le_one hK]; push_cast at hq; exact hq
+
+/-- reserved value of one order as an integer (0 where `ReservedValue` would panic) -/
+def reservedOf (fs : FeeSchedule) (ver : Nat) (o : Order) : Int :=
+  match orderReservedValue fs o ver with
+  | .ok v => v
+  | .panic => 0
+
+/-- the running sum of `validateOrder` / the marshaler is the sum over exactly the account's own orders -/
+theorem sumReserved_eq (fs : FeeSchedule) (acct : Account) (db : List Order) (rs : Int)
+    (h : sumReserved fs acct db = some rs) :
+    rs = ((db.filter (fun x => x.acctKey = acct.key)).map (reservedOf fs acct.version)).sum ∧
+    ∀ x ∈ db, x.acctKey = acct.key → orderReservedValue fs x acct.version ≠ .panic := by
+  induction db generalizing rs with
+  | nil => simp [sumReserved] at h; simp [h]
+  | cons x rest ih =>
+    unfold sumReserved at h
+    by_cases hk : x.acctKey = acct.key
+    · simp only [hk, ne_eq, not_true_eq_false, if_false] at h
+      cases hx : orderReservedValue fs x acct.version with
+      | panic => simp [hx] at h
+      | ok v =>
+        simp only [hx] at h
+        cases hr : sumReserved fs acct rest with
+        | none => simp [hr] at h
+        | some r =>
+          simp only [hr, Option.map_some, Option.some.injEq] at h
+          obtain ⟨e, hp⟩ := ih r hr
+          refine ⟨?_, ?_⟩
+          · simp [hk, reservedOf, hx, ← e, ← h]
+          · intro y hy hyk
+            rcases List.mem_cons.1 hy with rfl | hy'
+            · simp [hx]
+            · exact hp y hy' hyk
+    · simp only [hk, ne_eq, not_false_eq_true, if_true] at h
+      obtain ⟨e, hp⟩ := ih rs h
+      refine ⟨by simp [hk, e], ?_⟩
+      intro y hy hyk
+      rcases List.mem_cons.1 hy with rfl | hy'
+      · exact absurd hyk hk
+      · exact hp y hy' hyk
+
 end Pool.C11
